@@ -32,6 +32,13 @@ func (c *PointerCodec) Write(w *WriteBuf, p unsafe.Pointer) {
 	// need to worry about writing the union selector.
 	pp := *(*unsafe.Pointer)(p)
 	if pp == nil {
+		// Outside a union there is no null branch to fall back on. Schema
+		// generation keeps pointers to slices and maps as plain arrays and
+		// maps, so a nil pointer is written as the empty collection.
+		switch c.Codec.(type) {
+		case *arrayCodec, *MapCodec:
+			w.Varint(0)
+		}
 		return
 	}
 	c.Codec.Write(w, pp)
